@@ -173,6 +173,15 @@ pub fn poison_thread(seed: u64) {
         let mut dead = SimDisk::plain(Vec::new()).fault(crate::disk::Fault::FailStop { at: 1, kind: crate::disk::FKind::Other });
         let _ = pm.to_writer(&mut dead);
         let _ = PMTiles::from_bytes(&b"PMTiles\x03 not really an archive"[..]);
+        // a header the serialiser refuses (a version other than 3), on either face
+        let mut h = pmtiles2::Header::default();
+        h.spec_version = 2 + (seed % 200) as u8 + u8::from(seed % 200 >= 1);
+        let mut sink: Vec<u8> = Vec::new();
+        let _ = h.to_writer(&mut sink);
+        if seed % 3 == 0 {
+            let mut out = SimDisk::plain(Vec::new());
+            let _ = exec::block_on(h.to_async_writer(&mut out));
+        }
         // last (so that nothing after it can tidy up): a serialisation that is refused half-way
         // (length 0 at a later index)
         let d: Directory = es.clone().into();
